@@ -154,7 +154,12 @@ impl HasTypeProperties for DeriveInput {
             if let Ok(list) = attr.meta.require_list() {
                 if let Some(ident) = list.path.get_ident() {
                     if ident == "repr" {
-                        output.enum_repr = Some(list.tokens.clone())
+                        // Hints may be spread over several `#[repr(..)]` attributes; keep all of them.
+                        let hints = list.tokens.clone();
+                        output.enum_repr = Some(match output.enum_repr.take() {
+                            Some(previous) => quote! { #previous, #hints },
+                            None => hints,
+                        });
                     }
                 }
             }
